@@ -93,6 +93,13 @@ pub mod ber_spec {
         s.subrange((h.hlen + h.length) as int, s.len() as int)
     }
 
+    // the octets of `s` after its first k top-level elements
+    pub open spec fn nth_rest(s: Seq<u8>, k: nat) -> Seq<u8>
+        decreases k
+    {
+        if k == 0 { s } else { spec_rest(nth_rest(s, (k - 1) as nat)) }
+    }
+
     // unsigned big-endian value of an octet string
     pub open spec fn be_u(c: Seq<u8>) -> nat
         decreases c.len()
